@@ -31,7 +31,7 @@ sys.path.insert(0, os.path.dirname(os.path.abspath(__file__)))
 import _common as C
 import numpy as np
 from c07 import (POLY, CaseTimeout, PairOracle, build_pair, case_key, certificate, enumerate_cases, order_failures, prime,
-                 priming_effective, run_pool, scale_L, warm_up, with_timeout)
+                 priming_effective, run_pool, scale_L, set_phase, warm_up, with_timeout, HANG_SECONDS)
 
 
 def point_distance_lower_bound(col, x):
@@ -68,13 +68,17 @@ def eval_case(case):
 
     try:
         prime(0.0)
-        intersection, t, u, x = with_timeout(lambda: mpr.mpr_penetration(A["obj"], B["obj"]), 20.0)
+        set_phase(3)
+        intersection, t, u, x = with_timeout(lambda: mpr.mpr_penetration(A["obj"], B["obj"]))
+        set_phase(0)
     except CaseTimeout:
+        set_phase(0)
         out["status"] = "timeout"
         if certified_overlap():
-            fail("terminates", "mpr_penetration did not return within 20 s on a pair whose penetration depth is at least %.6g" % orc.depth_bounds()[0])
+            fail("terminates", "mpr_penetration did not return (10 s, repeated with 30 s) on a pair whose penetration depth is at least %.6g" % orc.depth_bounds()[0])
         return out
     except Exception as e:
+        set_phase(0)
         out["status"] = "exception:" + type(e).__name__
         if certified_overlap():
             fail("no_exception", "%s: %s on a pair whose penetration depth is at least %.6g" % (type(e).__name__, str(e)[:100], orc.depth_bounds()[0]))
@@ -167,10 +171,18 @@ def main():
     res, hung = run_pool(_worker, order, a.jobs, t0 + (1080.0 if a.tier == "thorough" else 125.0))
     failures, samples, status, undec = [], [], {}, {}
     nontrivial = set()
-    for i in hung:
+    hung_elsewhere = []
+    for i, phase in hung:
         c = cases[i]
-        failures.append(dict(contract="mpr.mpr_penetration[%s,%s]" % (c["A"]["kind"], c["B"]["kind"]), obligation="terminates",
-                             detail="the case occupied a worker for more than 60 s (native code does not return)", input=dict(case=c)))
+        A, B = build_pair(c)
+        orc = PairOracle(A, B)
+        lb = orc.depth_bounds()[0] if (orc.exact is not None or not (A["kind"] in POLY and B["kind"] in POLY)) else -math.inf
+        if phase == "mpr" and lb > 2e-3 * scale_L(A, B):
+            failures.append(dict(contract="mpr.mpr_penetration[%s,%s]" % (c["A"]["kind"], c["B"]["kind"]), obligation="terminates",
+                                 detail="mpr_penetration occupied a worker for more than %g s (native code does not return) on a pair whose "
+                                        "penetration depth is at least %.6g" % (HANG_SECONDS, lb), input=dict(case=c)))
+        else:
+            hung_elsewhere.append(dict(phase=phase, certified_depth=lb, case=c))
     by_id = {c["id"]: c for c in cases}
     for r in res:
         st = r["status"].split(":")[0]
@@ -200,7 +212,7 @@ def main():
            "{0,+-.25,+-.5,+-1}*{.5,1}*size; random = uniform rotations, gaussian offsets; sizes {0.5,1,2}, scene scale {0.01,1,100}, origin shift "
            "up to 707; boxgrid = boxes with sizes {0.5,1,2}^3 at offsets {-1,-.5,0,.25,.5,1}^3 (2/3 axis-aligned, 1/3 cube-group rotated); "
            "randhull = gaussian vertex hulls with 8..40 vertices" % (len(cases), C.COLLIDER_TYPES, fams),
-           incomplete=len(cases) - len(res), undecided=sum(undec.values()), undecided_by_obligation=undec, status=status, failure_keys=keys,
+           incomplete=len(cases) - len(res), hung_not_counted=hung_elsewhere, undecided=sum(undec.values()), undecided_by_obligation=undec, status=status, failure_keys=keys,
            priming_effective=primed,
            library=os.path.dirname(distance3d.__file__), tier=a.tier, seed=a.seed)
 
